@@ -26,6 +26,12 @@ var benchUser = &testobj.TestObject{
 	}},
 }
 
+// unsigned values handed over by pointer (no boxing in the harness itself)
+var (
+	scaledBigU   uint64 = 1700000000
+	scaledSmallU uint32 = 7
+)
+
 type allocCase struct {
 	Name  string
 	Key   string
@@ -280,6 +286,7 @@ func runC19(o *Options) *Result {
 		"includes-in-loop":       `{% for i := 0; i < 12; i++ %}{% include simple %}{% endfor %}`,
 		"include-long-key":       `{% for i := 0; i < 3; i++ %}{% include scaled-include-target-with-a-key-longer-than-thirty-two-bytes nosuch %}{% endfor %}`,
 		"range-string-keyed-map": `{% for name, bits := range user.Flags sep , %}{%= name %}={%= bits %}{% endfor %}|{% for k, item := range user.Finance.History sep ; %}{%= k %}:{%= item.Cost %}{% endfor %}`,
+		"ctx-copy-unsigned":      `{% ctx st = bigu %}state={%= st %};{% if st >= 256 %}big{% else %}small{% endif %}{% ctx n = user.Status %}{%= n %}{% ctx f = user.Finance.Balance %}{%= f %}{% ctx u8 = smallu %}{%= u8 %}`,
 		"regions-nested":         `{% htmlescape %}<b>{%= user.Name %}{% urlencode %}a b&{%= user.Id %}{% endurlencode %}</b>{% jsonquote %}"{%= user.Name %}"{% endjsonquote %}{% endhtmlescape %}`,
 		"switch-in-loops":        `{% for _, a := range user.Finance.History %}{% switch a.Cost %}{% case 14.345241 %}A{% case 60 %}B{% default %}C{% endswitch %}{% for j := 0; j < 2; j++ %}{% if a.Cost > 20 %}{%= a.Cost|default(0) %}{% else %}-{% endif %}{% endfor %}{% endfor %}`,
 	}
@@ -300,7 +307,11 @@ func runC19(o *Options) *Result {
 		}
 		key := "scaled-" + name
 		dyntpl.RegisterTplKey(key, tree)
-		cases = append(cases, allocCase{Name: "scaled/" + name, Key: key, Src: src, Setup: func(ctx *dyntpl.Ctx) { ctx.Set("user", benchUser, tobjIns) }})
+		cases = append(cases, allocCase{Name: "scaled/" + name, Key: key, Src: src, Setup: func(ctx *dyntpl.Ctx) {
+			ctx.Set("user", benchUser, tobjIns)
+			ctx.SetStatic("bigu", &scaledBigU)
+			ctx.SetStatic("smallu", &scaledSmallU)
+		}})
 	}
 	for _, c := range cases {
 		ctx := dyntpl.NewCtx()
